@@ -53,7 +53,7 @@ func c05load(g *Gen, i int, path string, files map[string]string, names []string
 		ud := filepath.Join(os.Getenv("GOPATH"), "src", path+"user")
 		os.MkdirAll(ud, 0755)
 		defer os.RemoveAll(ud)
-		os.WriteFile(filepath.Join(ud, "user.go"), []byte(c05userSrc(path, files)), 0644)
+		os.WriteFile(filepath.Join(ud, names[0]), []byte(c05userSrc(path, files)), 0644) // the same file name as a file of the package under test
 		if err := b.AddDir(path + "user"); err != nil {
 			return nil, err
 		}
